@@ -678,7 +678,7 @@ func installFilter(kind string) error {
 		}
 		tars.UseClientFilterMiddleware(mw, mw)
 	default:
-		return fmt.Errorf("unknown -filter %q", kind)
+		return installFaultFilter(kind) // fpre | fpost | flegacy | fmw: filters that are not transparent (faultfilter.go)
 	}
 	return nil
 }
